@@ -49,6 +49,20 @@ def judge(case):
             want = int(np.prod(case["shapes"][0])) if case["args"].get("training", True) else 0
             if L[1].get("draws") != want:
                 v("draws", f"consumed {L[1].get('draws')} random draws, expected {want}")
+    if L[0] == "ok" and R[0] == "ok" and not viol and op not in ("dropout",) and any(a.ndim >= 2 and a.size > 1 and a.dtype.kind == "f" for a in arrays):
+        from mc import gradcheck
+        for lname, conv in gradcheck.LAYOUTS:
+            alt = [conv(np.array(a, copy=True)) if a.dtype.kind == "f" else np.array(a, copy=True) for a in arrays]
+            cat.COPY = False
+            try:
+                r2 = _outcome(lambda: np.asarray(cat.run_lib(case, alt)[0].data))
+            finally:
+                cat.COPY = True
+            b = R[1]["out"]
+            if r2[0] != "ok":
+                v("layout-dependent", f"operands in {lname} layout: library raised {r2[1]}")
+            elif tuple(r2[1].shape) != tuple(np.shape(b)) or not np.allclose(np.asarray(r2[1], dtype=np.float64), b, rtol=RT, atol=AT, equal_nan=True):
+                v("layout-dependent", f"operands in {lname} layout: result differs from the reference")
     return {"nontrivial": L[0] == "ok" and L[1]["out"].size >= 1, "outcome": L[0] + "/" + R[0], "violations": viol}
 
 def replay(case):
